@@ -41,6 +41,113 @@ def seq_from_tlc(c, seeds, ndraw, tag):
     return tab, r
 
 
+M48 = 1 << 48
+NDRAW_STATE = 12      # one refill; the word written last is delivered as the 12th value
+
+
+def back_steps(ring, c_new, steps, rng, budget):
+    """Run the recurrence backwards: a state (12 words oldest first, carry) from which `steps` forward steps lead to
+    (ring, c_new).  Input construction only - what the generator must deliver from the state comes from TLC."""
+    stack = [(list(ring), c_new, 0)]
+    while stack and budget[0] > 0:
+        budget[0] -= 1
+        r, cn, k = stack.pop()
+        if k == steps:
+            return r, cn
+        wn, wn5 = r[11], r[6]
+        cands = []
+        for c_old in (0, 1):
+            w_old = (wn5 - wn - c_old) % M48
+            borrow = 1 if wn5 - w_old - c_old < 0 else 0
+            if borrow == cn:
+                cands.append(([w_old] + r[:11], c_old, k + 1))
+        rng.shuffle(cands)
+        stack.extend(cands)
+    return None
+
+
+def boundary_states(c, exe, rd, rng, tier):
+    cases = []
+    meta = []
+    for e in range(12):
+        first = (12 - e) % 12              # steps of the leading single-step loop of the code
+        want = {1, 2, first, first + 1, first + 6, first + 12, first + 24, 200, 385, 386, 390, 391, 392, 395, 396, 397}
+        if tier == "quick":
+            want = {first if first else 1, first + 6, first + 12, 392, 397}
+        for t in sorted(x for x in want if 1 <= x <= 397):
+            for attempt in range(20):
+                ring_t = [rng.randrange(M48) for _ in range(11)] + [0]        # the step just taken gave 0 (no borrow)
+                if rng.random() < 0.3:
+                    ring_t[6] = rng.choice([0, 1, M48 - 1])
+                got = back_steps(ring_t, 0, t, rng, [20000])
+                if got:
+                    break
+            else:
+                continue
+            r0, c0 = got
+            cases.append(dict(ring=[[w >> 24, w & 0xffffff] for w in r0], carry=c0, n=NDRAW_STATE))
+            meta.append((e, t))
+    if not cases:
+        raise vlib.Inconclusive("no boundary state could be constructed")
+    from concurrent.futures import ThreadPoolExecutor as _TPE
+    nchunk = 6
+    chunks = [list(range(k, len(cases), nchunk)) for k in range(nchunk) if k < len(cases)]
+
+    def sjob(args):
+        k, idxs = args
+        fj = os.path.join(rd, "ranlux_states_%d.json" % k)
+        json.dump([cases[i] for i in idxs], open(fj, "w"))
+        cfg = os.path.join(rd, "rl_states_%d.cfg" % k)
+        open(cfg, "w").write("SPECIFICATION Spec\nCHECK_DEADLOCK FALSE\n")
+        r = vlib.tlc("Eval_RanluxStates.tla", cfg, rd, workers=1, timeout=3000, tag="rl_states_%d" % k, env={"CASES": fj}, xss="1g")
+        m = re.search(r'<<\s*"STATES",\s*"(.*?)"\s*>>', r.out, re.S)
+        if r.rc != 0 or not m:
+            raise vlib.Inconclusive("Eval_RanluxStates failed:\n" + r.out[-2500:])
+        return idxs, json.loads(m.group(1).replace('\\"', '"').replace("\n", "")), r
+
+    spec = [None] * len(cases)
+    with _TPE(max_workers=nchunk) as ex:
+        for idxs, res, r in ex.map(sjob, enumerate(chunks)):
+            c.add_model("Ranlux from boundary states (Eval_RanluxStates)", r, "%d states" % len(idxs))
+            for i, x in zip(idxs, res):
+                spec[i] = x
+    fin = os.path.join(rd, "ranlux_states.txt")
+    with open(fin, "w") as fh:
+        for (e, t), cs in zip(meta, cases):
+            fh.write("%d %d %s\n" % (e, cs["carry"], " ".join("%d %d" % (w[0], w[1]) for w in cs["ring"])))
+    tmp = c.rd.sub("rl_states_tmp")
+    rc, out = vlib.sh("%s state %d %s %s" % (exe, NDRAW_STATE, fin, tmp), timeout=600)
+    got = {}
+    for line in out.splitlines():
+        if line.startswith("{") and line.endswith("}"):
+            d = json.loads(line)
+            got[d["i"]] = d["seq"]
+    nzero = 0
+    for i, ((e, t), cs) in enumerate(zip(meta, cases)):
+        sp = spec[i]
+        if t not in sp["zeroat"]:
+            raise vlib.Inconclusive("boundary state %d: the specification sees no zero result at step %d (%s)" % (i, t, sp["zeroat"]))
+        nzero += 1
+        c.add_case(("state", e, t), nontrivial=True)
+        if i not in got:
+            c.violation("ranlux:state:crash-or-hang", "the real RandomGenerator, restored from a block-end state (oldest word at index "
+                        "%d, zero result at refill step %d), did not deliver its draws (harness rc=%d)" % (e, t, rc), {"case": cs, "e": e, "t": t})
+            break
+        want_seq = [list(x) for x in sp["seq"]]
+        if got[i] != want_seq:
+            k = next(j for j in range(len(want_seq)) if got[i][j] != want_seq[j])
+            where = "leading-loop" if t <= (12 - e) % 12 else ("final-loop" if t > 397 - ((397 - (12 - e) % 12) % 12) else "block")
+            c.violation("ranlux:state:zero-result:%s" % where,
+                        "RandomGenerator restored from a state in which refill step %d (array offset %d) gives exactly 0 deviates from "
+                        "ranlxd2 at draw %d: code %s, specification %s (-1 = outside [0,1) or not a 48 bit fraction)" % (
+                            t, e, k, got[i][k], want_seq[k]), {"case": cs, "e": e, "t": t, "draw": k, "code": got[i][k:k + 3], "spec": want_seq[k:k + 3]})
+        else:
+            c.cov["traces_validated_against_impl"] += 1
+    c.cov["boundary_states"] = nzero
+    vlib.log("binding R on states: %d block-end states with an exactly zero refill result (every array offset, steps in the leading "
+             "loop, inside and at the end of the unrolled blocks, in the final loop) compared over the block that follows" % nzero)
+
+
 def run(c):
     tier = c.tier
     rng = random.Random(c.seed)
@@ -90,6 +197,9 @@ def run(c):
                             {"seed": d["seed"], "draw": k, "code": d["seq"][k:k + 3], "spec": spec[k:k + 3]})
     c.sample({"binding": "R", "seed": 42, "first_words_hi_lo": [list(x) for x in res[0][2][0][res[0][0][0]][:4]]})
     vlib.log("binding R: %d seeds, %d delivered words compared with the specification" % (len(seeds) + len(long_seeds), nwords))
+
+    # ---- 2b. boundary states: a refill step whose result is exactly zero -------------------
+    boundary_states(c, exe, rd, random.Random(c.seed + 13), tier)
 
     # ---- 3. histories -------------------------------------------------------------------
     nh = 6 if tier == "quick" else 40
